@@ -4,6 +4,7 @@ package main
 // panics (C06): TL-LOW, TL-UP, TL-BOUND, TL-OVF, TL-IDX, NIL-OBJ, PANIC-REACH.
 
 import (
+	"go/constant"
 	"fmt"
 	"go/token"
 	"go/types"
@@ -282,6 +283,10 @@ func (e *tlEnv) factsAbout(r ssa.Value, b *ssa.BasicBlock, depth int) guardFacts
 				g.Uppers = append(g.Uppers, cs.Value())
 				g.Why = append(g.Why, "success edge of "+qualNameShort(cs.Static))
 			}
+		} else if ov := okValueOfCall(cs.Value()); ov != nil && cs.Block.Dominates(b) && knownTrue(b, ov) {
+			g.Low, g.Bounded = true, true
+			g.Uppers = append(g.Uppers, cs.Value())
+			g.Why = append(g.Why, "ok edge of "+qualNameShort(cs.Static))
 		}
 	}
 	// parameter of an unexported function: facts that hold at every call site
@@ -364,69 +369,138 @@ func (e *tlEnv) sinks() []tlSink {
 	return out
 }
 
-// validateConsumers finds module functions of the shape "check the length
-// parameter, then slice with it": their slice sinks are discharged by facts
-// about the parameter alone. Callers may then rely on the success edge.
+// validateConsumers finds the module functions that validate a length
+// parameter: on every return that can be a success (error nil, or the final
+// bool result true) the parameter is known to be non-negative and bounded by
+// the length of something present — by the function's own tests, by the
+// success edge of another validating function it hands the parameter to, or
+// because the return just passes on that function's verdict. Callers may
+// then rely on the success edge. Computed to a fixpoint.
 func (e *tlEnv) validateConsumers(sinks []tlSink) {
-	byFn := map[*ssa.Function][]tlSink{}
-	for _, s := range sinks {
-		byFn[s.Fn] = append(byFn[s.Fn], s)
-	}
-	for fn, ss := range byFn {
-		if fn.Signature.Results().Len() == 0 || errorResultIndex(fn.Signature) < 0 {
-			continue
-		}
-		var param *ssa.Parameter
-		ok := true
-		for _, s := range ss {
-			for _, r := range e.roots(s.Expr) {
-				p, isP := r.(*ssa.Parameter)
-				if !isP {
-					ok = false
+	for iter := 0; iter < 5; iter++ {
+		changed := false
+		for _, fn := range e.P.ModuleFuncs() {
+			if _, done := e.validated[fn]; done || fn.Blocks == nil {
+				continue
+			}
+			ei, bi := errorResultIndex(fn.Signature), okResultIndex(fn.Signature)
+			if ei < 0 && bi < 0 {
+				continue
+			}
+			for i, p := range fn.Params {
+				if b, ok := p.Type().Underlying().(*types.Basic); !ok || b.Info()&types.IsInteger == 0 {
 					continue
 				}
-				if param != nil && param != p {
-					ok = false
-				}
-				param = p
-				g := e.factsAbout(r, s.Instr.Block(), 9) // no call-site summary here
-				if !g.Low || !g.Bounded {
-					ok = false
+				if e.validatesParam(fn, p, ei, bi) {
+					e.validated[fn] = i
+					changed = true
+					break
 				}
 			}
 		}
-		if ok && param != nil {
-			for i, p := range fn.Params {
-				if p == param {
-					e.validated[fn] = i
-				}
-			}
+		if !changed {
+			break
 		}
 	}
-	// one level of wrappers: f(r, l) { _, err := g(int(l)); return err }
-	for _, fn := range e.P.ModuleFuncs() {
-		if _, done := e.validated[fn]; done || len(fn.Blocks) != 1 {
+}
+
+func okResultIndex(sig *types.Signature) int {
+	res := sig.Results()
+	if res.Len() == 0 {
+		return -1
+	}
+	if b, ok := res.At(res.Len() - 1).Type().Underlying().(*types.Basic); ok && b.Kind() == types.Bool {
+		return res.Len() - 1
+	}
+	return -1
+}
+
+// okValueOfCall: the final bool result of a call, if it has one.
+func okValueOfCall(c *ssa.Call) ssa.Value {
+	sig := c.Call.Signature()
+	idx := okResultIndex(sig)
+	if idx < 0 {
+		return nil
+	}
+	if sig.Results().Len() == 1 {
+		return c
+	}
+	if e := extractOf(c, idx); e != nil {
+		return e
+	}
+	return nil
+}
+
+// knownTrue: block b is reached only where v is true.
+func knownTrue(b *ssa.BasicBlock, v ssa.Value) bool {
+	for _, f := range factsAt(b) {
+		cond, truth := f.Cond, f.Truth
+		for {
+			if u, ok := cond.(*ssa.UnOp); ok && u.Op == token.NOT {
+				cond, truth = u.X, !truth
+				continue
+			}
+			break
+		}
+		if cond == v && truth {
+			return true
+		}
+	}
+	return false
+}
+
+func (e *tlEnv) validatesParam(fn *ssa.Function, p *ssa.Parameter, ei, bi int) bool {
+	n := 0
+	for _, b := range fn.Blocks {
+		if b == fn.Recover {
 			continue
 		}
-		for _, cs := range callsIn(fn) {
-			if cs.Static == nil || cs.Value() == nil {
+		ret, ok := b.Instrs[len(b.Instrs)-1].(*ssa.Return)
+		if !ok {
+			continue
+		}
+		rs := resolvedResults(ret)
+		if ei >= 0 {
+			ev := rs[ei]
+			if isFreshError(ev) {
+				continue // a failure
+			}
+			if nn, _ := knownNonNil(b, ev); nn {
 				continue
 			}
-			idx, ok := e.validated[cs.Static]
-			if !ok {
+		} else {
+			if k, isK := rs[bi].(*ssa.Const); isK && k.Value != nil && k.Value.Kind() == constant.Bool && !constant.BoolVal(k.Value) {
 				continue
-			}
-			arg := stripConv(cs.Common.Args[idx])
-			rs := returnsOf(fn)
-			if len(rs) == 1 && errOperand(rs[0]) == errValueOfCall(cs.Value()) {
-				for i, p := range fn.Params {
-					if ssa.Value(p) == arg {
-						e.validated[fn] = i
-					}
-				}
 			}
 		}
+		// passes on the verdict of a validating function given the same parameter
+		passed := false
+		for _, cs := range callsIn(fn) {
+			if cs.Static == nil || cs.Value() == nil || !dominatesInstr(cs.Instr, ret) {
+				continue
+			}
+			idx, isV := e.validated[cs.Static]
+			if !isV || idx >= len(cs.Common.Args) || stripConv(cs.Common.Args[idx]) != ssa.Value(p) {
+				continue
+			}
+			if ei >= 0 && rs[ei] == errValueOfCall(cs.Value()) && rs[ei] != nil {
+				passed = true
+			}
+			if ei < 0 && rs[bi] == okValueOfCall(cs.Value()) && rs[bi] != nil {
+				passed = true
+			}
+		}
+		if passed {
+			n++
+			continue
+		}
+		g := e.factsAbout(p, b, 9) // no call-site summary here
+		if !g.Low || !g.Bounded {
+			return false
+		}
+		n++
 	}
+	return n > 0
 }
 
 func ruleTL(c *Ctx) {
@@ -434,8 +508,8 @@ func ruleTL(c *Ctx) {
 	e := newTL(P)
 	sinks := e.sinks()
 	e.validateConsumers(sinks)
-	c.Rule("TL-LOW", "a length, count or index decoded from the input reaches an allocation, slice bound or index only where it is known to be non-negative", 8)
-	c.Rule("TL-BOUND", "a decoded value used as a slice bound or index is known not to exceed the length or capacity of what it slices", 5)
+	c.Rule("TL-LOW", "a length, count or index decoded from the input reaches an allocation, slice bound or index only where it is known to be non-negative", 5)
+	c.Rule("TL-BOUND", "a decoded value used as a slice bound or index is known not to exceed the length or capacity of what it slices", 3)
 	c.Rule("TL-UP", "a decoded length reaches an allocation only where it is bounded by the size of the input actually present", 2)
 	c.Rule("TL-OVF", "a guard that adds to a decoded length is preceded by an upper bound on that length, so the sum cannot wrap", 0)
 	var vnames []string
